@@ -7,7 +7,8 @@ Reasons == ndJsonDeserialize(IOEnv.REASONS)
 ReasonOf(code) == Reasons[code - 99].reason
 CONSTANT Full
 VARIABLE c
-Val == { <<>>, << 97 >>, << 97, 98 >>, << 45, 32, 255 >> }
+\* (empty, plain, two bytes, opaque bytes, control bytes other than a newline in the middle: HTAB, NUL / ESC / DEL)
+Val == { <<>>, << 97 >>, << 97, 98 >>, << 45, 32, 255 >>, << 97, 9, 98 >>, << 0, 27, 127, 99 >> }
 HeaderLists == { <<>> } \cup { << << n, v >> >> : n \in Val, v \in Val } \cup { << << n, v >>, << v, n >> >> : n \in {<<>>, << 97 >>}, v \in Val }
 Codes == IF Full THEN 100..999 ELSE {100, 199, 200, 299, 404, 418, 451, 599, 600, 999}
 Init ==
